@@ -55,7 +55,7 @@ def run_one(item):
 
 # changes written for one property whose effect is (also) the business of another property's check
 ALSO = {'C15_m10': ['C14'], 'C15_m16': ['C14'], 'C03_m15': ['C04'], 'C19_m15': ['C04'],
-        'C03_m18': ['C04'], 'C16_m17': ['C05'], 'C17_m18': ['C05'], 'C19_m18': ['C14'], 'C18_m17': ['C15'], 'C10_m21': ['C01'], 'C18_m21': ['C14']}
+        'C03_m18': ['C04'], 'C16_m17': ['C05'], 'C17_m18': ['C05'], 'C19_m18': ['C14'], 'C18_m17': ['C15'], 'C10_m21': ['C01'], 'C18_m21': ['C14'], 'C16_m23': ['C04']}
 
 
 def retired_reason(item):
